@@ -128,6 +128,15 @@ for alg in ((8, 13) if TIER == "quick" else (8, 10, 13, 14)):
     sc = {"modules": [[{"id": 0, "objs": S.pair(k1["id"], k1) + S.pair(k2["id"], k2)}]], "ksks": {"k1": ceremony.ksk_def(k1), "k2": ceremony.ksk_def(k2)},
           "schema": schema, "request": rq}
     run("nine-bundles-revoke-schema", sc, {"alg": alg})
+# a revoked-and-signing KSK whose REVOKE bit carries into the next half-word of the key tag sum (revoked tag = tag + 129)
+krc = ksrxml.mk_key(P.ec_revoke_carry(13), alg=13, flags=257, ident="Krc")
+k2_ = ksk_for(13, idx=1)
+zc = [zsk_for(13, idx=j) for j in range(2)]
+rq = skrgen.honest_request("revoke-carry", NOW, 3, [[zc[0]], [zc[0], zc[1]], [zc[1]]], ksrxml.default_zsk_policy(), sign=True)
+schema = {1: {"publish": ["k1", "k2"], "sign": ["k1"], "revoke": []}, 2: {"publish": ["k2"], "sign": ["k1", "k2"], "revoke": ["k1"]}, 3: {"publish": ["k2"], "sign": ["k2"], "revoke": []}}
+sc = {"modules": [[{"id": 0, "objs": S.pair(krc["id"], krc) + S.pair(k2_["id"], k2_)}]], "ksks": {"k1": ceremony.ksk_def(krc), "k2": ceremony.ksk_def(k2_)},
+      "schema": schema, "request": rq}
+run("revoke-tag-carry", sc, {"tag": krc["tag"]})
 P.save()
 
 ok_build, log = vlib.make(["Checks/SignCheck.vo"])
